@@ -117,6 +117,8 @@ type baselineInfo struct {
 	calls   map[declKey]map[declKey]bool
 	delta   map[declKey]bool
 	tainted map[declKey]bool
+	newDecls map[declKey]*ast.FuncDecl // the declarations of the tree (parsed on demand)
+	newFset  *token.FileSet
 }
 
 func (b *baselineInfo) close() {
@@ -325,4 +327,133 @@ func (b *baselineInfo) overlay(repo string, need map[declKey]bool) (map[string][
 		out[filepath.Join(repo, dir, "zz_verif_baseline.go")] = src.Bytes()
 	}
 	return out, nil
+}
+
+// loopShapes: the headers of the loops of a declaration with every identifier
+// blanked ("for _ := 0; _ < _; _++", "for _, _ := range _._"): what a rename
+// leaves alone and what peeling, re-striding or converting a loop changes.
+func loopShapes(fset *token.FileSet, d *ast.FuncDecl) []string {
+	var out []string
+	blank := func(n ast.Node) string {
+		if n == nil {
+			return ""
+		}
+		var b bytes.Buffer
+		printer.Fprint(&b, fset, n)
+		src := b.String()
+		// blank identifiers: a crude lexer is enough (keywords never occur inside these fragments
+		// except range/len-like builtins, which are kept as written)
+		var o strings.Builder
+		i := 0
+		for i < len(src) {
+			c := src[i]
+			if c == '_' || c >= 'a' && c <= 'z' || c >= 'A' && c <= 'Z' {
+				j := i
+				for j < len(src) && (src[j] == '_' || src[j] >= 'a' && src[j] <= 'z' || src[j] >= 'A' && src[j] <= 'Z' || src[j] >= '0' && src[j] <= '9') {
+					j++
+				}
+				w := src[i:j]
+				switch w {
+				case "len", "cap", "range", "true", "false", "nil":
+					o.WriteString(w)
+				default:
+					o.WriteString("_")
+				}
+				i = j
+				continue
+			}
+			if c != ' ' && c != '\t' && c != '\n' {
+				o.WriteByte(c)
+			}
+			i++
+		}
+		return o.String()
+	}
+	ast.Inspect(d, func(n ast.Node) bool {
+		switch st := n.(type) {
+		case *ast.ForStmt:
+			out = append(out, "for "+blank(st.Init)+";"+blank(st.Cond)+";"+blank(st.Post))
+		case *ast.RangeStmt:
+			kv := 0
+			if st.Key != nil {
+				kv++
+			}
+			if st.Value != nil {
+				kv++
+			}
+			out = append(out, fmt.Sprintf("range%d %s", kv, blank(st.X)))
+		}
+		return true
+	})
+	return out
+}
+
+// sameLoopShapes: do the declarations that changed between the snapshot and
+// the tree, as far as they are reachable from k, have the same loop headers
+// (helpers the snapshot does not have count for the tree)?
+func (b *baselineInfo) sameLoopShapes(repo string, k declKey) bool {
+	if b.newDecls == nil {
+		b.newDecls = map[declKey]*ast.FuncDecl{}
+		b.newFset = token.NewFileSet()
+		for _, dir := range baselineDirs {
+			for kk, d := range parseDecls(b.newFset, repo, dir) {
+				b.newDecls[kk] = d
+			}
+		}
+	}
+	var sa, sb []string
+	for r := range b.reach([]declKey{k}) {
+		if !b.delta[r] {
+			continue
+		}
+		if d, ok := b.decls[r]; ok {
+			sb = append(sb, loopShapes(b.declPkg[r].Fset, d)...)
+		}
+		if d, ok := b.newDecls[r]; ok {
+			sa = append(sa, loopShapes(b.newFset, d)...)
+		}
+	}
+	for kk, d := range b.newDecls {
+		if _, inBase := b.decls[kk]; !inBase {
+			sa = append(sa, loopShapes(b.newFset, d)...)
+		}
+	}
+	sort.Strings(sa)
+	sort.Strings(sb)
+	if len(sa) != len(sb) {
+		return false
+	}
+	for i := range sa {
+		if sa[i] != sb[i] {
+			return false
+		}
+	}
+	return true
+}
+
+// unchangedLoops: for every changed declaration reachable from k that exists
+// in both versions, the positions (in source order) of the loops whose header
+// shape is the same in both; nil for a declaration whose number of loops changed.
+func (b *baselineInfo) unchangedLoops(repo string, k declKey) map[declKey][]bool {
+	b.sameLoopShapes(repo, k) // parses the tree on first use
+	out := map[declKey][]bool{}
+	for r := range b.reach([]declKey{k}) {
+		od, ok1 := b.decls[r]
+		nd, ok2 := b.newDecls[r]
+		if !ok1 || !ok2 {
+			continue
+		}
+		so := loopShapes(b.declPkg[r].Fset, od)
+		sn := loopShapes(b.newFset, nd)
+		if len(so) != len(sn) {
+			out[r] = nil
+			continue
+		}
+		same := make([]bool, len(so))
+		for i := range so {
+			same[i] = so[i] == sn[i]
+		}
+		out[r] = same
+	}
+	return out
 }
